@@ -49,3 +49,31 @@ pub fn solve_contract(a: &[f64], b: &[f64]) -> Vec<f64> {
     }
     x
 }
+
+/// Contract stub for `compute::linalg::invert_matrix` (harness_s!): a fresh symbolic n x n matrix X with
+/// A X = I (what C01 establishes about `invert_matrix` at orders 1 and 2). Inputs 440.. (orders <= 2, one call).
+pub fn invert_contract(a: &[f64]) -> Vec<f64> {
+    let n = is_square(a).unwrap();
+    let mut x = vec![0.0; n * n];
+    let mut i = 0;
+    while i < n * n {
+        x[i] = crate::rt::inp::f64(440 + i as u32);
+        i += 1;
+    }
+    let mut i = 0;
+    while i < n {
+        let mut j = 0;
+        while j < n {
+            let mut s = 0.0;
+            let mut k = 0;
+            while k < n {
+                s += a[i * n + k] * x[k * n + j];
+                k += 1;
+            }
+            crate::rt::assume(s == if i == j { 1.0 } else { 0.0 }, "invert_matrix contract: A X = I");
+            j += 1;
+        }
+        i += 1;
+    }
+    x
+}
